@@ -463,9 +463,11 @@ mod private {
                 }
             ) {
                 *self = match grid {
-                    ImageBuffer::F32(g) => (g.try_get_ref(x, y).copied().unwrap_or(0.0) * 65535.0
-                        + 0.5)
-                        .clamp(0.0, 65535.0) as u16,
+                    ImageBuffer::F32(g) => {
+                        let mut v = 0u16;
+                        v.copy_from_f32(g.try_get_ref(x, y).copied().unwrap_or(0.0));
+                        v
+                    }
                     ImageBuffer::I32(g) => {
                         g.try_get_ref(x, y).copied().unwrap_or(0).clamp(0, 65535) as u16
                     }
@@ -486,7 +488,9 @@ mod private {
 
         #[inline]
         fn copy_from_f32(&mut self, val: f32) {
-            *self = (val * 65535.0 + 0.5).clamp(0.0, 65535.0) as u16;
+            // In f64 the product and the sum are exact, so this is round-half-up of the sample;
+            // in f32 both operations round and values just below a half were rounded up.
+            *self = (val as f64 * 65535.0 + 0.5).clamp(0.0, 65535.0) as u16;
         }
     }
 
@@ -495,9 +499,11 @@ mod private {
         fn copy_from_grid(&mut self, grid: &ImageBuffer, x: usize, y: usize, bit_depth: BitDepth) {
             if matches!(bit_depth, BitDepth::IntegerSample { bits_per_sample: 8 }) {
                 *self = match grid {
-                    ImageBuffer::F32(g) => (g.try_get_ref(x, y).copied().unwrap_or(0.0) * 255.0
-                        + 0.5)
-                        .clamp(0.0, 255.0) as u8,
+                    ImageBuffer::F32(g) => {
+                        let mut v = 0u8;
+                        v.copy_from_f32(g.try_get_ref(x, y).copied().unwrap_or(0.0));
+                        v
+                    }
                     ImageBuffer::I32(g) => {
                         g.try_get_ref(x, y).copied().unwrap_or(0).clamp(0, 255) as u8
                     }
@@ -520,7 +526,8 @@ mod private {
 
         #[inline]
         fn copy_from_f32(&mut self, val: f32) {
-            *self = (val * 255.0 + 0.5).clamp(0.0, 255.0) as u8;
+            // See the note on `u16`: exact in f64.
+            *self = (val as f64 * 255.0 + 0.5).clamp(0.0, 255.0) as u8;
         }
     }
 }
